@@ -126,6 +126,7 @@ func (o RunOutcome) String() string {
 // RunOpts configures RunBytecode.
 type RunOpts struct {
 	MaxAllocs int64
+	ZeroAllocs bool // MaxAllocs == 0 means a budget of zero (default: 0 = unlimited)
 	Timeout   time.Duration
 	Inputs    map[string]tengo.Object
 	Probe     func(v *tengo.VM, fn *tengo.CompiledFunction, ip, sp, bp, fi int, allocs int64)
@@ -136,7 +137,7 @@ func RunBytecode(c *Compiled, o RunOpts) RunOutcome {
 	if o.Timeout == 0 {
 		o.Timeout = 5 * time.Second
 	}
-	if o.MaxAllocs == 0 {
+	if o.MaxAllocs == 0 && !o.ZeroAllocs {
 		o.MaxAllocs = -1
 	}
 	globals := make([]tengo.Object, tengo.GlobalsSize)
